@@ -442,6 +442,23 @@ async def D13b():
     return all(n == 1 and first == b"\x01" for n, first in outs), outs
 
 
+async def D13c():
+    """a middleware installed by the application at the head of the chain must run once per statement"""
+    s = RecSession()
+    calls = []
+
+    async def mw(q):
+        calls.append(q.expression.sql())
+        return await q.next()
+    s.middlewares.insert(0, mw)
+    srv = mkserver([s])
+    a = Peer(srv)
+    await a.login()
+    await a.cmd(b"\x03select a from t; insert into t values (1)")
+    await a.finish()
+    return calls == ["SELECT a FROM t", "INSERT INTO t VALUES (1)"], calls
+
+
 # --------------------------------------------------------------------------- C14
 async def D14():
     bad = []
@@ -505,7 +522,7 @@ ALL = {
     "D1": ("C01", D1), "D1b": ("C01", D1b), "D4a": ("C04", D4a), "D4b": ("C04", D4b), "D5a": ("C05", D5a), "D5b": ("C05", D5b),
     "D5c": ("C05", D5c), "D6": ("C06", D6), "D7": ("C07", D7), "D9a": ("C09", D9a), "D9b": ("C09", D9b),
     "D9c": ("C09", D9c), "D9d": ("C09", D9d), "D10a": ("C03", D10a), "D10b": ("C03", D10b),
-    "D10c": ("C03", D10c), "D11": ("C11", D11), "D13": ("C13", D13), "D13b": ("C13", D13b), "D14": ("C14", D14), "D15": ("C15", D15),
+    "D10c": ("C03", D10c), "D11": ("C11", D11), "D13": ("C13", D13), "D13b": ("C13", D13b), "D13c": ("C13", D13c), "D14": ("C14", D14), "D15": ("C15", D15),
     "D16": ("C16", D16), "D18": ("C18", D18),
 }
 
